@@ -35,7 +35,7 @@ import traceback
 
 from hypothesis import strategies as st
 
-from vp.core.framework import Violation, hyp_run, shard_seed, slug
+from vp.core.framework import Violation, hyp_run, shard_seed
 
 ID = "C17"
 LEVEL = "exploration"
